@@ -207,13 +207,6 @@ Section LowTotal.
 End LowTotal.
 
 (* ---------- every byte string as a database file ---------- *)
-(* the pager over a file image: page n is bytes (n-1)U .. nU-1 when the file
-   holds them all; anything else is a read error (short read / EOF) *)
-Definition image_pager (img : list byte) (U : Z) (n : Z) : res (list byte) :=
-  if (1 <=? n) && (n * U <=? len img) then Ok (take U (drop ((n - 1) * U) img)) else Err EIO.
-
-Definition image_pages (img : list byte) (U : Z) : nat := Z.to_nat (len img / U).
-
 Section Image.
   Variable img : list byte.
   Variable U : Z.
